@@ -45,6 +45,16 @@ BuildUnderKey(key, ds) ==
     LET sub == FoldDocs([i \in 1..Len(ds) |-> Times(ds[i], 1)])
     IN IF IsErr(sub) THEN sub
        ELSE FoldDocs(<<AdoptChildren([MkNode("dict", NoVal, <<<<key, sub>>>>) EXCEPT !.dsafe = "T"], FALSE)>>)
+\* the same below a mapping marked !unsafe: the include node inherits the marker, hands safe=False to the
+\* sub-builder (include.py:110), so every included node records an unsafe source; the merged content is then
+\* attached under the key of the unsafe mapping (and inherits its marker like any child)
+UnsafeRoot(key, sub) == AdoptChildren([MkNode("dict", NoVal, <<<<key, sub>>>>) EXCEPT !.dsafe = "T", !.safe = "F"], FALSE)
+BuildUnderUnsafeKey(key, dsUnsafe) ==      \* dsUnsafe: the documents parsed as an unsafe source
+    LET sub == FoldDocs([i \in 1..Len(dsUnsafe) |-> Times(dsUnsafe[i], 1)])
+    IN IF IsErr(sub) THEN sub ELSE FoldDocs(<<UnsafeRoot(key, sub)>>)
+RECURSIVE AllUnsafe(_)
+AllUnsafe(n) == ~EffSafe(n) /\ \A i \in 1..Len(n.ch) : AllUnsafe(n.ch[i][2])
+
 WrapUnderKey(key, t) == AdoptChildren([MkNode("dict", NoVal, <<<<key, t>>>>) EXCEPT !.dsafe = "T"], FALSE)
 
 \* ---- file lookup (include.py:100-123, builder.py:310-322) ---------------------------
